@@ -180,6 +180,8 @@ func (v Val) Go() any {
 		return st.Interface()
 	case "named":
 		return NamedStruct(int(v.I))
+	case "sharedptr":
+		return SharedPtr(int(v.I))
 	case "ptr":
 		inner := v.A[0].Go()
 		p := reflect.New(reflect.TypeOf(inner))
@@ -219,6 +221,19 @@ func NamedStruct(k int) any {
 	}
 	return row{"n"}
 }
+
+// Site is what a long-lived pointer in request data typically points to.
+type Site struct {
+	Name  string
+	Year  int
+	Links []string
+}
+
+var sharedPtrs = []*Site{{Name: "Acme", Year: 1999, Links: []string{"a", "b"}}, {Name: "Globex", Year: 2020}}
+
+// SharedPtr returns the SAME pointer on every call: the one value that several concurrent
+// renders legitimately share when a caller passes a long-lived object in the data of each.
+func SharedPtr(k int) any { return sharedPtrs[k%len(sharedPtrs)] }
 
 // AltData returns the same data with top-level objects switched between
 // map[string]any and struct representation (same content, other native type).
